@@ -192,11 +192,20 @@ fn guid_case(ctx: &mut Ctx, index: u64, rng: &mut Rng) {
         }
     };
     let expected: Option<&str> = if rng.chance(3, 4) { Some(GUID) } else { None };
-    let (server_guid, valid, label): (String, bool, &str) = match rng.below(5) {
+    let (server_guid, valid, label): (String, bool, &str) = match rng.below(8) {
         0 | 1 => (GUID.to_string(), true, "same"),
         2 => (OTHER_GUID.to_string(), true, "other-valid"),
         3 => (GUID[..31].to_string(), false, "31-hex"),
-        _ => (format!("{}g", &GUID[..31]), false, "non-hex"),
+        4 => (format!("{GUID}0"), false, "33-hex"),
+        5 => (format!("{}g", &GUID[..31]), false, "non-hex"),
+        _ => {
+            // one character that is not a hex digit, at any position (first, last and the middle are all drawn often)
+            let pos = *rng.pick(&[0usize, 0, 1, 7, 15, 16, 30, 31, 31]);
+            let bad = *rng.pick(&['g', 'z', 'G', '+', '-', '_', '.', 'x']);
+            let mut cs: Vec<char> = GUID.chars().collect();
+            cs[pos] = bad;
+            (cs.into_iter().collect(), false, if pos == 0 { "non-hex-first" } else if pos == 31 { "non-hex-last" } else { "non-hex-inside" })
+        }
     };
     let sg = server_guid.clone();
     let server = std::thread::spawn(move || {
